@@ -87,6 +87,9 @@ class Ctx:
         self.nbranch += 1
         if self.pos < len(self.decisions):
             idx = self.decisions[self.pos]
+            if idx == "END":
+                # replay of a path that exploration found to end here (no feasible option)
+                raise PathEnd("infeasible")
             self.pos += 1
         else:
             feas = [i for i in live if self._feasible(conds[i])]
